@@ -123,5 +123,8 @@ Section Cylinder.
     end.
   Definition cyl_world_bounds (c : Cyl) : BBox K :=
     match ctransform c with Some t => tr_bbox t (cyl_bounds c) | None => cyl_bounds c end.
+  (** debug builds: the assertion of [mul4x4point] inside [transform_bbox] (Model/Transform.v) *)
+  Definition cyl_world_bounds_debug_ok (c : Cyl) : bool :=
+    match ctransform c with Some t => tr_bbox_debug_ok t (cyl_bounds c) | None => true end.
 End Cylinder.
 Arguments Cyl K : clear implicits.
